@@ -99,8 +99,8 @@ fn target_ops(rng: &mut Rng, pre: &Obs, cfg: &HistCfg, base: usize) -> Vec<Op> {
     ops.push(Op::ShrinkFit); ops.push(Op::ShrinkTo { n: pre.len + rng.usize_below(2) });
     // the rest
     ops.push(Op::CloneCache); ops.push(Op::CloneFrom { src: 1 }); ops.push(Op::Clear);
-    ops.push(Op::Iterate { kind: IT_DRAIN, calls: vec![false, true], forget: false });
-    ops.push(Op::Iterate { kind: IT_ITER, calls: vec![false; pre.len + 1], forget: false });
+    ops.push(Op::Iterate { kind: IT_DRAIN, calls: vec![false, true], forget: false, fin: 0 });
+    ops.push(Op::Iterate { kind: IT_ITER, calls: vec![false; pre.len + 1], forget: false, fin: 0 });
     ops
 }
 
